@@ -23,7 +23,10 @@ def one(sid):
                             capture_output=True, text=True)
         if ap.returncode != 0:
             return sid, {"error": "patch does not apply: " + (ap.stdout + ap.stderr)[-300:]}
-        for c in meta["checks_expected_to_detect"]:
+        if not meta["checks_expected_to_detect"]:
+            # a documented miss: run the property's own check anyway, to notice if it ever starts to be reported
+            out["_documented_miss"] = meta.get("why_not_detected", "")
+        for c in meta["checks_expected_to_detect"] or [meta["breaks_property"]]:
             env = dict(os.environ, VERIF_REPO=scratch, VERIF_EVIDENCE_DIR=scratch + "/ev", VERIF_REPLAY_DIR=scratch + "/rp")
             t0 = time.time()
             p = subprocess.run(["/verif/check", c, os.environ.get("TIER", "quick")], env=env, capture_output=True, text=True, timeout=3600)
@@ -46,7 +49,11 @@ def main():
     old = json.load(open(path)) if os.path.exists(path) else {}
     old.update(results)
     json.dump(old, open(path, "w"), indent=1, sort_keys=True)
-    missed = [s for s, o in results.items() if "error" in o or not any(v["exit"] == 1 for v in o.values())]
+    missed = [s for s, o in results.items() if "_documented_miss" not in o and
+              ("error" in o or not any(isinstance(v, dict) and v.get("exit") == 1 for v in o.values()))]
+    documented = [s for s, o in results.items() if "_documented_miss" in o]
+    if documented:
+        print(f"documented misses (outside the property's quantifier or not soundly decidable): {documented}")
     print(f"{len(results)} seeded changes, {len(missed)} not detected: {missed}")
     return 1 if missed else 0
 
